@@ -20,6 +20,17 @@ theorem modes_font (m : Modes) (h : m.altFont = 0) : ({ m with altFont := 0 } : 
 def reset (t : Term) : Term := { t with pen := { link := t.pen.link }, penKnown := true }
 def withPen (t : Term) (p : Pen) : Term := { t with pen := p }
 
+/-- the pen is in the state SGR reset leaves it in (sendFgBg is only ever called right after `sgr0`) -/
+def PenReset (t : Term) : Prop := t.penKnown = true ∧ t.pen = { link := t.pen.link }
+
+theorem reset_of_penReset {t : Term} (h : PenReset t) : reset t = t := by
+  obtain ⟨h1, h2⟩ := h
+  cases t with | mk cfg grid other cx cy pw pen pk lk ck modes st sv svo last mal blocks =>
+  simp only at h1 h2
+  subst h1
+  show Term.mk cfg grid other cx cy pw { link := pen.link } true lk ck modes st sv svo last mal blocks = _
+  rw [← h2]
+
 theorem good_reset {rw} {t : Term} (g : Good rw t) : Good rw (reset t) := ⟨g.st, g.utf8, g.font, g.g0, g.so, g.irm, g.mal, g.rw⟩
 theorem good_withPen {rw} {t : Term} (g : Good rw t) (p : Pen) : Good rw (withPen t p) :=
   ⟨g.st, g.utf8, g.font, g.g0, g.so, g.irm, g.mal, g.rw⟩
@@ -157,7 +168,7 @@ structure TiFacts (ti : Terminfo) : Prop where
   attrOff : stripPadding ti.attrOff ∈ attrOffForms
   clear : stripPadding ti.clear ∈ clearForms
   vis : (stripPadding ti.showCursor ∈ showForms ∧ stripPadding ti.hideCursor ∈ hideForms) ∨ (ti.showCursor = [] ∧ ti.hideCursor = [])
-  underline : stripPadding ti.underline = sgr1 4
+  underline : ti.underline = [] ∨ stripPadding ti.underline = sgr1 4
   bold : ti.bold = [] ∨ stripPadding ti.bold = sgr1 1
   reverse : ti.reverse = [] ∨ stripPadding ti.reverse = sgr1 7
   blink : ti.blink = [] ∨ stripPadding ti.blink = sgr1 5
@@ -182,7 +193,7 @@ theorem tiFacts {ti : Terminfo} (h : CapsOk ti = true) : TiFacts ti := by
   have h1 := xl_tiOk h
   simp only [tiCapsOk, Bool.and_eq_true, and_assoc] at h1
   obtain ⟨a1, a2, a3, a4, a5, a6, a7, a8, a9, a10, a11, a12, a13, a14, a15, a17, a18⟩ := h1
-  refine ⟨?_, by simpa using a2, by simpa using a3, ?_, by simpa using a5, optSent_of a6, optSent_of a7, optSent_of a8,
+  refine ⟨?_, by simpa using a2, by simpa using a3, ?_, optSent_of a5, optSent_of a6, optSent_of a7, optSent_of a8,
     optSent_of a9, optSent_of a10, optSent_of a11, ?_, opt_of a13, opt_of a14, opt_of a15,
     by simpa using a17, by simpa using a18⟩
   · simp only [List.any_eq_true, beq_iff_eq] at a1; exact a1
